@@ -83,7 +83,7 @@ theorem sendFrame_local (s : Stream) (hE : Established (shared s)) (d : Bytes) (
 theorem openBody_swap (s : Stream) (hE : Established (shared s)) (a' : SendSide) (k : Nat) (f : WireFrame) :
     (swapSend s a').openBody k f = s.openBody k f := by
   obtain ⟨key, enc, auth, encIV, decIV, encCtr, decCtr, fsa, fra, ⟨sf, rf, sw, rw, fS, fR⟩, sb, se, rb, br, tm, im, bs, pa⟩ := s
-  obtain ⟨encIV', encCtr', fsa', sb', se', sf', sw'⟩ := a'
+  obtain ⟨encCtr', fsa', sb', se', sf', sw'⟩ := a'
   obtain ⟨h1, h2, h3, h4⟩ := hE
   simp only [shared] at h1 h2 h3 h4
   obtain ⟨x, rfl⟩ := Option.isSome_iff_exists.mp h1
